@@ -17,6 +17,7 @@ pub enum Sh {
     B(usize),      // byte string, at most this long
     Sign3,         // -1, 0, 1
     Zero,          // literal U(0)
+    Steps,         // C04 history: list of (op, operand, derivation mode, small)
 }
 
 pub struct OpSpec {
@@ -53,6 +54,7 @@ pub const OPS: &[OpSpec] = &[
     OpSpec { op: "scalar", owner: "C10", shape: &[Sh::Z(4), Sh::I] },
     OpSpec { op: "bigbig", owner: "C10", shape: &[Sh::Z(6), Sh::Z(6)] },
     OpSpec { op: "gcd.i", owner: "C13", shape: &[Sh::Z(8), Sh::Z(8)] },
+    OpSpec { op: "hist", owner: "C04", shape: &[Sh::Z(6), Sh::Steps] },
 ];
 
 const I_TABLE: [i128; 24] = [
@@ -151,6 +153,19 @@ pub fn decode(data: &[u8], allowed: &[usize]) -> Option<Case> {
             }
             Sh::Sign3 => Arg::I((c.byte() % 3) as i128 - 1),
             Sh::Zero => Arg::U(0),
+            Sh::Steps => {
+                let n = (c.byte() as usize) % 25;
+                let mut steps = vec![];
+                for _ in 0..n {
+                    let op = (c.byte() % 24) as i128;
+                    let neg = c.byte() & 1 == 1;
+                    let d = c.digits(3);
+                    let mode = (c.byte() % 8) as i128;
+                    let small = c.u64();
+                    steps.push(Arg::L(vec![Arg::I(op), Arg::Z(neg, d), Arg::I(mode), Arg::U(small as u128)]));
+                }
+                Arg::L(steps)
+            }
         });
     }
     Some(Case::new(spec.op, args))
@@ -245,6 +260,29 @@ pub fn encode(case: &Case, allowed: &[usize]) -> Option<Vec<u8>> {
             }
             (Sh::Sign3, Arg::I(v)) => out.push((*v + 1) as u8),
             (Sh::Zero, Arg::U(_)) => {}
+            (Sh::Steps, Arg::L(steps)) => {
+                if steps.len() > 24 {
+                    return None;
+                }
+                out.push(steps.len() as u8);
+                for st in steps {
+                    let st = match st { Arg::L(v) if v.len() == 4 => v, _ => return None };
+                    let (op, mode, small) = match (&st[0], &st[2], &st[3]) { (Arg::I(o), Arg::I(m), Arg::U(s)) => (*o, *m, *s), _ => return None };
+                    if !(0..24).contains(&op) || !(0..8).contains(&mode) || small > u64::MAX as u128 {
+                        return None;
+                    }
+                    out.push(op as u8);
+                    match &st[1] {
+                        Arg::Z(neg, d) => {
+                            out.push(*neg as u8);
+                            enc_digits(&mut out, d, 3)?;
+                        }
+                        _ => return None,
+                    }
+                    out.push(mode as u8);
+                    out.extend_from_slice(&(small as u64).to_le_bytes());
+                }
+            }
             _ => return None,
         }
     }
